@@ -1,8 +1,10 @@
 pub mod c01;
 pub mod c04;
+pub mod c05;
+pub mod c11;
 
 use crate::driver::Prop;
 
 pub fn all() -> Vec<&'static Prop> {
-    vec![&c01::PROP, &c04::PROP]
+    vec![&c01::PROP, &c04::PROP, &c05::PROP, &c11::PROP]
 }
